@@ -207,8 +207,15 @@ const SLICE_COMMITMENT_LEN: usize = 8 + 8 + 1 + 32;
 ///
 /// This is an opaque capability, obtainable only via [`ValidatedShred::commitment`].
 /// The inner byte layout is a protocol detail, not a stable API.
-#[derive(Clone, Copy, Debug, PartialEq, Eq)]
-pub struct SliceCommitment([u8; SLICE_COMMITMENT_LEN]);
+#[derive(Clone, Copy, Debug)]
+pub struct SliceCommitment {
+    /// The signed bytes.
+    bytes: [u8; SLICE_COMMITMENT_LEN],
+    /// The leader signature that was verified over these bytes, if known.
+    ///
+    /// Only a shred carrying this very signature may skip signature verification.
+    verified_sig: Option<Signature>,
+}
 
 impl SliceCommitment {
     /// Creates a [`SliceCommitment`] covering a [`SliceHeader`] and a [`SliceRoot`].
@@ -218,13 +225,36 @@ impl SliceCommitment {
         buf[8..16].copy_from_slice(&(header.slice_index.inner() as u64).to_le_bytes());
         buf[16] = u8::from(header.is_last);
         buf[17..49].copy_from_slice(slice_root.as_ref());
-        Self(buf)
+        Self {
+            bytes: buf,
+            verified_sig: None,
+        }
+    }
+
+    /// Records the signature that was verified over this commitment.
+    pub(crate) fn with_verified_signature(mut self, sig: Signature) -> Self {
+        self.verified_sig = Some(sig);
+        self
+    }
+
+    /// Returns `true` iff `sig` is the signature already verified over this commitment.
+    pub(crate) fn is_verified_signature(&self, sig: &Signature) -> bool {
+        self.verified_sig.as_ref() == Some(sig)
     }
 }
 
+/// Two commitments are equal iff the leader committed to the same bytes.
+impl PartialEq for SliceCommitment {
+    fn eq(&self, other: &Self) -> bool {
+        self.bytes == other.bytes
+    }
+}
+
+impl Eq for SliceCommitment {}
+
 impl AsRef<[u8]> for SliceCommitment {
     fn as_ref(&self) -> &[u8] {
-        &self.0
+        &self.bytes
     }
 }
 
